@@ -2,7 +2,10 @@
 //! mdverif — implementation side of the correspondence check.
 //! Runs generated cases on the REAL contracts of /repo (path dependencies) and writes, per family,
 //! Coq files holding (input, observed output) pairs that the Rocq model re-evaluates with vm_compute.
+mod chain;
 mod epoch;
+mod gen;
+mod sim;
 mod out;
 mod rng;
 mod val;
@@ -40,6 +43,7 @@ fn main() {
     }));
     let fam = match family.as_str() {
         "epoch" => epoch::generate(seed, count),
+        "chain-pool" | "chain-farm" | "chain-mixed" => chain::generate(&family, seed, count),
         x => { eprintln!("unknown family {x}"); std::process::exit(2); }
     };
     fam.write(&outdir, shards).expect("write cases");
